@@ -142,7 +142,7 @@ class MBoxFolderHandler(FolderHandler):
         # Must be a real file
         if (
             type(self.vfs) is not VFS_Real
-            or self.selectorargs
+            or self.selector != self.selectorreal
             or not self.statresult
             or not stat.S_ISREG(self.statresult[stat.ST_MODE])
         ):
@@ -188,7 +188,7 @@ class MaildirFolderHandler(FolderHandler):
     def canhandlerequest(self):
         if type(self.vfs) is not VFS_Real:
             return 0
-        if self.selectorargs:
+        if self.selector != self.selectorreal:
             return 0
         if not (self.statresult and stat.S_ISDIR(self.statresult[stat.ST_MODE])):
             return 0
